@@ -26,7 +26,12 @@
      * lists and tuples are values (VList; pairs also VPair): the translator only lets a list be changed through the
        attribute that owns it (self.<f>.append(..)), so that copying instead of sharing cannot be observed.
      * `%` by zero (ZeroDivisionError), range() with a step that is not positive, sorting anything else than pairs of
-       ints are Unsupported. *)
+       ints are Unsupported.
+     * an object of the class Expr (C12) is VObj of its only attribute `value`; it has no identity: `a is b` on such objects is
+       the call P_is, and the operator table `op_string_to_function[op]( *args)` is P_op_lookup / P_op_call.  These three
+       have NO meaning here ([call_at] answers Unsupported): Tie/Expr_steps.v closes the interpreter with its own [call], in
+       which `is` answers from an arbitrary stream (never "same" for objects that differ) and the table is the denotation
+       Model/Expr.py_call of the table regenerated into Gen/Facts_C12.v. *)
 From FJ Require Import Lib.Base Lib.Bytes.
 Local Open Scope N_scope.
 
@@ -44,10 +49,12 @@ Inductive value :=
 | VBytes (l : list N)                  (* a bytes object *)
 | VText (l : list N)                   (* a str that is data: its code points *)
 | VList (l : list value)               (* a list, or a tuple that is not a pair; also a set given in its iteration order *)
-| VDict (l : list (value * value)).    (* a dict: its items in insertion order (keys: ints or data strings) *)
+| VDict (l : list (value * value))     (* a dict: its items in insertion order (keys: ints or data strings) *)
+| VObj (v : value).                    (* an object of the class Expr (expr.py): its attribute `value` *)
 
 Inductive attr := A_memory_width | A_garbage_handling.     (* Reader.memory_width, Reader.garbage_handling *)
 
+Inductive pytype := TInt | TStr.                           (* the classes isinstance(.., int) / isinstance(.., str) can name *)
 Inductive binop := Add | Sub | Mul | BAnd | BOr | BXor | Shl | Shr | Mod.
 Inductive cmpop := Eq | NotEq | Lt | LtE | Gt | GtE.
 
@@ -73,7 +80,12 @@ Inductive fname :=
 | P_compress_data                           (* Writer._compress_data(b): lzma as an oracle, LZMAError -> the library error *)
 (* breakpoint resolution (C16): the three update_breakpoints_* functions of debugging/breakpoints.py; print *)
 | F_bp_from_addresses | F_bp_from_contains | F_bp_from_labels
-| P_print.
+| P_print
+(* expression evaluation (C12): Expr.eval_new / Expr.exact_eval of assembler/inner_classes/expr.py.  P_op_lookup is
+   `op_string_to_function[op]` (the function is represented by its key; KeyError), P_op_call `f( *args)`, P_is `a is b` on
+   objects: not primitives of [prim] - their meaning is given by the [call] of Tie/Expr_steps.v *)
+| F_expr_eval_new | F_expr_exact_eval
+| P_op_lookup | P_op_call | P_is.
 
 (* the target of a `for` / comprehension: a name or a tuple of targets *)
 Inductive pattern := PVar (x : ident) | PTuple (l : list pattern).
@@ -120,7 +132,12 @@ Inductive expr :=
 | ETupleOf (a : expr)                  (* tuple(a) / list(a): the keys of a dict in insertion order, the elements of a list *)
 | EReverse (a : expr)                  (* a[::-1] on a list *)
 | ETextLit (l : list N)                (* a string literal that is data: its code points *)
-| EJoinText (a : expr).                (* an f-string whose text matters: a display of data strings, concatenated *)
+| EJoinText (a : expr)                 (* an f-string whose text matters: a display of data strings, concatenated *)
+| EIsInst (t : pytype) (a : expr)      (* isinstance(a, int) / isinstance(a, str) *)
+| EIsNone (a : expr)                   (* a is None *)
+| EValueOf (a : expr)                  (* a.value  on an object of the class Expr *)
+| EMkObj (a : expr)                    (* Expr(a) *)
+| EGetOpt (d k : expr).                (* d.get(k) on a dict: the value, or None when the key is missing *)
 
 Inductive exn :=
 | XKeyError                            (* KeyError of a dict read *)
@@ -130,8 +147,12 @@ Inductive exn :=
 | XOverflow                            (* OverflowError of int.to_bytes *)
 | XIndex                               (* IndexError of x[k] *)
 | XStruct                              (* struct.error *)
-| XLib (tag : N).                      (* a library exception with a message; tag = which message (translator table) *)
-Inductive exn_class := KKeyError | KEOF.       (* what an `except` clause of the subset can name *)
+| XLib (tag : N)                       (* a library exception with a message; tag = which message (translator table) *)
+| XZeroDiv | XValue | XType.           (* ZeroDivisionError / ValueError / TypeError raised by an operator function (P_op_call) *)
+(* what the `except` clauses of a try can name.  KException: `except Exception`.  KNotLib: the handler of
+   `except <library exception>: raise` followed by `except Exception [as e]: handler` - the first clause re-raises the
+   library exception untouched, so the handler runs for every other exception *)
+Inductive exn_class := KKeyError | KEOF | KException | KNotLib.
 
 Inductive stmt :=
 | SPass
@@ -155,8 +176,10 @@ Inductive stmt :=
 | SFor (p : pattern) (it : expr) (body : stmt)     (* for p in it: body   (no break / else) *)
 | SContinue                                        (* continue *)
 | SFieldItemSet (f : ident) (k v : expr)           (* self.<f>[k] = v    on a list owned by the attribute *)
-| SVarItemSet (x : ident) (k v : expr).            (* x[k] = v   on a dict held by the variable x (a parameter that is never
+| SVarItemSet (x : ident) (k v : expr)             (* x[k] = v   on a dict held by the variable x (a parameter that is never
                                                       rebound: the caller's dict is the final value of x) *)
+| SVarAppend (x : ident) (e : expr).               (* x.append(e) on a list that only the local variable x holds (x = [] once,
+                                                      otherwise only appended to, iterated or copied by tuple(x)) *)
 
 (* ---- 2. state and outcomes -------------------------------------------------------------------- *)
 (* local variables (and the attributes of a device object): an association list, most recent binding first *)
@@ -410,6 +433,14 @@ Fixpoint table_get (l : list (N * N)) (k : N) : option N :=
 (* one byte <-> one character, the part of raw_unicode_escape that is the identity *)
 Definition all_below_256 (l : list N) : bool := forallb (fun c => c <? 256) l.
 
+(* isinstance(v, int) / isinstance(v, str): bool is a subclass of int; every other value is of neither class *)
+Definition is_inst (t : pytype) (v : value) : bool :=
+  match t, v with
+  | TInt, (VInt _ | VNeg _ | VBool _) => true
+  | TStr, (VText _ | VStr) => true
+  | _, _ => false
+  end.
+
 Definition lift (o : option value) (w : world) : eres :=
   match o with Some v => EOk v w | None => EUnsup end.
 Definition lift_bool (o : option bool) (w : world) : eres :=
@@ -604,6 +635,19 @@ Fixpoint eval (en : env) (e : expr) (w : world) : eres :=
   | ETextLit l => EOk (VText l) w
   | EJoinText a => andthen (eval en a w) (fun va w1 =>
         match va with VList l => lift (option_map VText (join_texts l)) w1 | _ => EUnsup end)
+  | EIsInst t a => andthen (eval en a w) (fun va w1 => EOk (VBool (is_inst t va)) w1)
+  | EIsNone a => andthen (eval en a w) (fun va w1 => EOk (VBool (match va with VNone => true | _ => false end)) w1)
+  | EValueOf a => andthen (eval en a w) (fun va w1 => match va with VObj v => EOk v w1 | _ => EUnsup end)
+  | EMkObj a => andthen (eval en a w) (fun va w1 => EOk (VObj va) w1)
+  | EGetOpt d k => andthen (eval en d w) (fun vd w1 => andthen (eval en k w1) (fun vk w2 =>
+        match vd with
+        | VDict items => match dict_get items vk with
+                         | Some (Some x) => EOk x w2
+                         | Some None => EOk VNone w2
+                         | None => EUnsup
+                         end
+        | _ => EUnsup
+        end))
   end.
 
 (* run an expression inside a statement: a value continues, an exception becomes the statement's outcome *)
@@ -611,7 +655,14 @@ Definition on_value (en : env) (r : eres) (k : value -> world -> sres) : sres :=
   match r with EOk v w => k v w | EExn x w => SOk (CRaise x) en w | EUnsup => SUnsup end.
 
 Definition catches (k : exn_class) (x : exn) : bool :=
-  match k, x with KKeyError, XKeyError => true | KEOF, XEOF => true | _, _ => false end.
+  match k, x with
+  | KKeyError, XKeyError => true
+  | KEOF, XEOF => true
+  | KException, _ => true
+  | KNotLib, XLib _ => false
+  | KNotLib, _ => true
+  | _, _ => false
+  end.
 
 Fixpoint exec (s : stmt) (en : env) (w : world) : sres :=
   match s with
@@ -692,6 +743,11 @@ Fixpoint exec (s : stmt) (en : env) (w : world) : sres :=
             end
           | _, _ => SUnsup
           end))
+  | SVarAppend x e =>                              (* the list (its bound method) is looked up first *)
+        match lookup en x with
+        | Some (VList l) => on_value en (eval en e w) (fun v w1 => SOk CNormal (bind en x (VList (l ++ [v]))) w1)
+        | _ => SUnsup
+        end
   end.
 End Interp.
 
